@@ -70,3 +70,9 @@ package muxer
 //@       unbox(arg2, type(SegmentHeader)).Timestamp == msg.SegmentHeader.Timestamp
 //@   callback call:(*Buffer).Write requires payload: arg1 == msg.Payload && called("binary.Write") && callres("binary.Write") == nil
 //@   ensures assembled: err == nil ==> called("binary.Write") && called("(*Buffer).Write")
+
+// Registering a delivery channel changes nothing else in the segment (used by the send loop, C12).
+//@ func (s *Segment) SetDeliveryChan(deliveryChan)
+//@   props C12
+//@   requires nonnil: s != nil
+//@   assigns s.deliveryChan
